@@ -2121,9 +2121,8 @@ class t2data(object):
                          'EWT': 'we', 'EWTD': 'we'}
         aut2eosname = ''
         if eos is None:
-            if self.multi:
-                if 'eos' in self.multi:
-                    if self.multi['eos']: aut2eosname = self.multi['eos'].strip()
+            if self.multi and self.multi.get('eos') and self.multi['eos'].strip():
+                aut2eosname = self.multi['eos'].strip()
             elif self.simulator:
                 for eosname in supported_eos.keys():
                     if self.simulator.endswith(eosname):
